@@ -921,6 +921,18 @@ func (c *Conn) handleStartTLS() {
 	c.reset()
 }
 
+// drainData consumes what the backend left of a DATA message. It reports
+// whether the end of the message was reached: if reading fails (idle timeout,
+// connection trouble) the rest of the message would otherwise be taken for
+// commands, so the caller has to give up the connection. A line that exceeds
+// the line length limit is not reported here: that condition is sticky and
+// ends the connection on the next command read.
+func drainData(r *dataReader) bool {
+	r.limited = false
+	_, err := io.Copy(ioutil.Discard, r)
+	return err == nil || err == ErrTooLongLine
+}
+
 // DATA
 func (c *Conn) handleData(arg string) {
 	if arg != "" {
@@ -953,9 +965,12 @@ func (c *Conn) handleData(arg string) {
 
 	r := newDataReader(c)
 	code, enhancedCode, msg := dataErrorToStatus(c.Session().Data(r))
-	r.limited = false
-	io.Copy(ioutil.Discard, r) // Make sure all the data has been consumed
+	complete := drainData(r) // Make sure all the data has been consumed
 	c.writeResponse(code, enhancedCode, msg)
+	if !complete {
+		// We do not know where the message ends.
+		c.Close()
+	}
 }
 
 func (c *Conn) handleBdat(arg string) {
@@ -980,8 +995,13 @@ func (c *Conn) handleBdat(arg string) {
 	// to be consumed before the next command can be read.
 	discardChunk := func() {
 		c.lineLimitReader.setLimit(0)
-		io.Copy(ioutil.Discard, io.LimitReader(c.text.R, int64(size)))
+		n, _ := io.Copy(ioutil.Discard, io.LimitReader(c.text.R, int64(size)))
 		c.lineLimitReader.setLimit(c.server.MaxLineLength)
+		if n != int64(size) {
+			// Reading the chunk failed (idle timeout, connection trouble):
+			// what is left of it would otherwise be taken for commands.
+			c.Close()
+		}
 	}
 
 	if !c.fromReceived || len(c.recipients) == 0 {
@@ -1071,7 +1091,7 @@ func (c *Conn) handleBdat(arg string) {
 
 	c.lineLimitReader.setLimit(0)
 
-	chunk := io.LimitReader(c.text.R, int64(size))
+	chunk := &io.LimitedReader{R: c.text.R, N: int64(size)}
 	n, err := io.Copy(pipe, chunk)
 	if err == nil && n != int64(size) {
 		// The connection went away in the middle of the chunk.
@@ -1093,7 +1113,10 @@ func (c *Conn) handleBdat(arg string) {
 			c.writeResponse(dataErrorToStatus(err))
 		}
 
-		if err == errPanic {
+		if err == errPanic || chunk.N > 0 {
+			// chunk.N > 0: reading the chunk itself failed (idle timeout,
+			// connection trouble); what is left of it would otherwise be
+			// taken for commands.
 			c.Close()
 		}
 
@@ -1228,12 +1251,11 @@ func (c *Conn) handleDataLMTP() {
 	if !ok {
 		// Fallback to using a single status for all recipients.
 		err := c.Session().Data(r)
-		r.limited = false
-		io.Copy(ioutil.Discard, r) // Make sure all the data has been consumed
+		complete := drainData(r) // Make sure all the data has been consumed
 		for _, rcpt := range c.recipients {
 			status.SetStatus(rcpt, err)
 		}
-		done <- true
+		done <- complete
 	} else {
 		go func() {
 			defer func() {
@@ -1251,9 +1273,7 @@ func (c *Conn) handleDataLMTP() {
 			}()
 
 			status.fillRemaining(lmtpSession.LMTPData(r, status))
-			r.limited = false
-			io.Copy(ioutil.Discard, r) // Make sure all the data has been consumed
-			done <- true
+			done <- drainData(r) // Make sure all the data has been consumed
 		}()
 	}
 
@@ -1262,8 +1282,8 @@ func (c *Conn) handleDataLMTP() {
 		c.writeResponse(code, enchCode, "<"+rcpt+"> "+msg)
 	}
 
-	// If done gets false, the panic occured in LMTPData and the connection
-	// should be closed.
+	// If done gets false, a panic occured in LMTPData or the end of the
+	// message was not reached, and the connection should be closed.
 	if !<-done {
 		c.Close()
 	}
